@@ -14,7 +14,15 @@ EXPLANATION = (
     "and QUIC flow control are NOT decided.")
 ASSUMPTIONS = ["tokio::sync::Mutex::lock on topic_handles completes without waiting for a peer (its holders never await peers — checked for the functions analysed)"]
 
-GUARD_RE = re.compile(r"^tokio::sync::mutex::MutexGuard<'_, std::collections::hash::map::HashMap<selium_protocol::topic_name::TopicName, ")
+# any guard of the global topic registry: Mutex, or the read / write guards of an RwLock (tokio or std), owned or borrowed
+class _RegistryGuard:
+    @staticmethod
+    def match(ty):
+        head = ty.split("<", 1)[0]
+        return head.startswith(("tokio::sync::", "std::sync::")) and head.endswith("Guard") and "HashMap<" in ty and "selium_server::topic::Sender<" in ty
+
+
+GUARD_RE = _RegistryGuard
 HANDLES_GUARD_RE = re.compile(r"^tokio::sync::mutex::MutexGuard<'_, futures_util::stream::futures_unordered::FuturesUnordered<")
 ALLOWED_AWAIT_SOURCES = {"tokio::sync::mutex::Mutex::lock"}
 
